@@ -215,10 +215,44 @@ fn pow_fast64(e: usize) -> u64 {
 // big-integer operations (C12) and vector histories (C13)
 
 use crate::cfgs::{BigOp, BigOut, VecObs, VecOp};
-use ml::bigint::{self, Bigint, VecType};
+use ml::bigint::{self, Bigint, Limb, VecType};
+
+// The harness describes big integers as little-endian u64 limbs.  On targets where the crate uses
+// 32-bit limbs (exercised under Miri with --target i686) they are converted value-preservingly:
+// each u64 becomes two u32 limbs, and the top limb's zero high half is dropped so that a normalised
+// number stays normalised.
+#[cfg(all(target_pointer_width = "64", not(target_arch = "sparc")))]
+fn to_limbs(x: &[u64]) -> Vec<Limb> {
+    x.to_vec()
+}
+
+#[cfg(all(target_pointer_width = "64", not(target_arch = "sparc")))]
+fn from_limbs(x: &[Limb]) -> Vec<u64> {
+    x.to_vec()
+}
+
+#[cfg(not(all(target_pointer_width = "64", not(target_arch = "sparc"))))]
+fn to_limbs(x: &[u64]) -> Vec<Limb> {
+    let mut out: Vec<Limb> = Vec::with_capacity(2 * x.len());
+    for &l in x {
+        out.push(l as Limb);
+        out.push((l >> 32) as Limb);
+    }
+    if let Some(&top) = x.last() {
+        if top >> 32 == 0 && top != 0 {
+            out.pop();
+        }
+    }
+    out
+}
+
+#[cfg(not(all(target_pointer_width = "64", not(target_arch = "sparc"))))]
+fn from_limbs(x: &[Limb]) -> Vec<u64> {
+    x.chunks(2).map(|c| c[0] as u64 | (c.get(1).copied().unwrap_or(0) as u64) << 32).collect()
+}
 
 fn vec_from(x: &[u64]) -> Option<VecType> {
-    VecType::try_from(x)
+    VecType::try_from(&to_limbs(x))
 }
 
 /// Apply one big-integer operation to the number with limbs `x` (little endian).
@@ -229,17 +263,17 @@ fn big_apply(x: &[u64], op: &BigOp) -> BigOut {
         None => return BigOut::Failed,
     };
     let r: Option<()> = match op {
-        BigOp::SmallAdd(y) => bigint::small_add(&mut v, *y),
-        BigOp::SmallMul(y) => bigint::small_mul(&mut v, *y),
-        BigOp::LargeAddFrom(y, start) => bigint::large_add_from(&mut v, y, *start),
-        BigOp::LongMul(y) => match bigint::long_mul(x, y) {
+        BigOp::SmallAdd(y) => bigint::small_add(&mut v, *y as Limb),
+        BigOp::SmallMul(y) => bigint::small_mul(&mut v, *y as Limb),
+        BigOp::LargeAddFrom(y, start) => bigint::large_add_from(&mut v, &to_limbs(y), *start),
+        BigOp::LongMul(y) => match bigint::long_mul(&to_limbs(x), &to_limbs(y)) {
             Some(z) => {
                 v = z;
                 Some(())
             }
             None => None,
         },
-        BigOp::LargeMul(y) => bigint::large_mul(&mut v, y),
+        BigOp::LargeMul(y) => bigint::large_mul(&mut v, &to_limbs(y)),
         BigOp::Pow5(e) => bigint::pow(&mut v, *e),
         BigOp::BigintPow(base, e) => {
             let mut b = Bigint {
@@ -278,14 +312,14 @@ fn big_apply(x: &[u64], op: &BigOp) -> BigOut {
                 None => None,
             }
         }
-        BigOp::MulSmallAddSmall(m, a) => match v.mul_small(*m) {
-            Some(()) => v.add_small(*a),
+        BigOp::MulSmallAddSmall(m, a) => match v.mul_small(*m as Limb) {
+            Some(()) => v.add_small(*a as Limb),
             None => None,
         },
     };
     match r {
         Some(()) => BigOut::Ok {
-            limbs: v.to_vec(),
+            limbs: from_limbs(&v),
             len: v.len(),
             capacity: v.capacity(),
         },
@@ -300,13 +334,13 @@ fn big_observe(x: &[u64]) -> Option<(bool, u32, (u64, bool), u32)> {
 }
 
 fn big_compare(x: &[u64], y: &[u64]) -> core::cmp::Ordering {
-    bigint::compare(x, y)
+    bigint::compare(&to_limbs(x), &to_limbs(y))
 }
 
 fn bigint_from_u64(v: u64) -> Vec<u64> {
     let b = Bigint::from_u64(v);
     let (hi, trunc) = b.hi64();
-    let mut out = b.data.to_vec();
+    let mut out = from_limbs(&b.data);
     // append observers so the caller can check them too
     out.push(hi);
     out.push(trunc as u64);
@@ -328,7 +362,7 @@ fn observe_pair(ret: i64, a: &VecType, b: &VecType) -> VecObs {
     VecObs {
         ret,
         popped: None,
-        a: a.to_vec(),
+        a: from_limbs(a),
         len: a.len(),
         is_empty: a.is_empty(),
         capacity: a.capacity(),
@@ -337,7 +371,7 @@ fn observe_pair(ret: i64, a: &VecType, b: &VecType) -> VecObs {
         eq_ab: a == b,
         cmp_ab: a.cmp(b),
         partial_cmp_ab: a.partial_cmp(b),
-        b: b.to_vec(),
+        b: from_limbs(b),
     }
 }
 
@@ -362,26 +396,26 @@ fn vec_history_inner(ops: &[VecOp]) -> Vec<VecObs> {
                 a = VecType::new();
                 1
             }
-            VecOp::TryFrom(x) => match VecType::try_from(x) {
+            VecOp::TryFrom(x) => match VecType::try_from(&to_limbs(x)) {
                 Some(v) => {
                     a = v;
                     1
                 }
                 None => 0,
             },
-            VecOp::Push(x) => a.try_push(*x).is_some() as i64,
+            VecOp::Push(x) => a.try_push(*x as Limb).is_some() as i64,
             VecOp::Pop => {
-                popped = a.pop();
+                popped = a.pop().map(|l| l as u64);
                 popped.is_some() as i64
             }
-            VecOp::Extend(x) => a.try_extend(x).is_some() as i64,
-            VecOp::Resize(n, v) => a.try_resize(*n, *v).is_some() as i64,
+            VecOp::Extend(x) => a.try_extend(&to_limbs(x)).is_some() as i64,
+            VecOp::Resize(n, v) => a.try_resize(*n, *v as Limb).is_some() as i64,
             VecOp::Normalize => {
                 a.normalize();
                 1
             }
-            VecOp::AddSmall(y) => a.add_small(*y).is_some() as i64,
-            VecOp::MulSmall(y) => a.mul_small(*y).is_some() as i64,
+            VecOp::AddSmall(y) => a.add_small(*y as Limb).is_some() as i64,
+            VecOp::MulSmall(y) => a.mul_small(*y as Limb).is_some() as i64,
             VecOp::CloneToB => {
                 b = a.clone();
                 1
@@ -394,7 +428,7 @@ fn vec_history_inner(ops: &[VecOp]) -> Vec<VecObs> {
                 let n = a.len();
                 if n > 0 {
                     let idx = *i % n;
-                    a[idx] = *v;
+                    a[idx] = *v as Limb;
                 }
                 1
             }
@@ -412,7 +446,7 @@ fn vec_history_inner(ops: &[VecOp]) -> Vec<VecObs> {
 
 fn slow_parse_mantissa(int: &[u8], frac: &[u8], max_digits: usize) -> (Vec<u64>, usize) {
     let (b, n) = ml::slow::parse_mantissa(int.iter(), frac.iter(), max_digits);
-    (b.data.to_vec(), n)
+    (from_limbs(&b.data), n)
 }
 
 
@@ -575,6 +609,20 @@ fn shapes_g<F: Float>(int: &[u8], frac: &[u8], exp: i32, shape: u32, salt: u64) 
     }
 }
 
+/// Parse through `filter` iterators over caller-provided buffers that contain `_` separators
+/// (no allocation in the harness: used by the allocation-counting check).
+fn parse_sep_g<F: Float>(int: &[u8], frac: &[u8], exp: i32) -> u64 {
+    ml::parse_float::<F, _, _>(int.iter().filter(|&&c| c != b'_'), frac.iter().filter(|&&c| c != b'_'), exp).to_bits()
+}
+
+fn parse_sep32(int: &[u8], frac: &[u8], exp: i32) -> u64 {
+    parse_sep_g::<f32>(int, frac, exp)
+}
+
+fn parse_sep64(int: &[u8], frac: &[u8], exp: i32) -> u64 {
+    parse_sep_g::<f64>(int, frac, exp)
+}
+
 fn shapes32(int: &[u8], frac: &[u8], exp: i32, shape: u32, salt: u64) -> u64 {
     shapes_g::<f32>(int, frac, exp, shape, salt)
 }
@@ -618,4 +666,6 @@ pub const CFG: Cfg = Cfg {
     libm_pow,
     shapes32,
     shapes64,
+    parse_sep32,
+    parse_sep64,
 };
